@@ -328,6 +328,41 @@ def podCostSum (pods : List PodCost) : Int := (pods.map (fun p => max 0 (evictio
 /-- `Candidate.IsEmpty`: `RescheduleDisruptionCost <= PerNodeBaseDisruptionCost` over the reschedulable pods -/
 def isEmpty (pods : List PodCost) : Bool := decide (podCostSum pods ≤ 0)
 
+/-! ### Emptiness: validation of the command after the delay (`validation.go`, `emptiness.go`)
+
+`Emptiness.ComputeCommands` builds its command from the candidates that are empty when it runs, waits
+`commandValidationDelay`, and RETURNS THE COMMAND `EmptinessValidator.Validate` RETURNS: the same command with its
+candidates narrowed to those that are still candidates after the wait.  Nodes are names; what `GetCandidates` (filter
+`Emptiness.ShouldDisrupt`, which asks `IsEmpty`) returns after the wait is the input `current`. -/
+
+/-- `mapCandidates(proposed, current)` (helpers.go): the CURRENT candidates whose name is among the proposed ones -/
+def mapCandidates (proposed current : List String) : List String := current.filter proposed.contains
+
+/-- the `lo.Filter` that ends `EmptinessValidator.validateCandidates`: a candidate is dropped when it is nominated or
+    its NodePool's budget is used up; a kept one uses up one disruption of its pool (a pool without an entry reads as
+    0, as a Go map does) -/
+def budgetFilter (poolOf : String → String) (nominated : String → Bool) : List (String × Nat) → List String → List String
+  | _, [] => []
+  | b, n :: ns =>
+    if nominated n then budgetFilter poolOf nominated b ns else
+    match (b.lookup (poolOf n)).getD 0 with
+    | 0 => budgetFilter poolOf nominated b ns
+    | k + 1 => n :: budgetFilter poolOf nominated ((poolOf n, k) :: b) ns
+
+/-- `EmptinessValidator.Validate` after the wait: the candidates of the command it returns; `none` = a validation
+    error (churn: no candidate of the command is a candidate any more; budget: none of those left may be disrupted) -/
+def emptinessValidate (poolOf : String → String) (nominated : String → Bool) (budgets : List (String × Nat))
+    (cmd current : List String) : Option (List String) :=
+  let v := mapCandidates cmd current
+  if v.isEmpty then none else
+  let w := budgetFilter poolOf nominated budgets v
+  if w.isEmpty then none else some w
+
+/-- `Emptiness.ComputeCommands` from `Validate` on: the candidates of the command it returns (`[]` = no command) -/
+def emptinessRelease (poolOf : String → String) (nominated : String → Bool) (budgets : List (String × Nat))
+    (cmd current : List String) : List String :=
+  (emptinessValidate poolOf nominated budgets cmd current).getD []
+
 /-! ### The scheduler's reserved pin (`offeringsToReserve` at the last `Add`, `FinalizeScheduling`) -/
 
 /-- `offeringsToReserve` with the `ReservedCapacity` gate on and every reservation still having capacity:
